@@ -71,6 +71,10 @@ def child_env(hashseed, extra=None) -> dict:
         "LC_ALL": "C.UTF-8",
         "LANG": "C.UTF-8",
         "HOME": "/nonexistent",
+        "USER": "simuser",
+        "LOGNAME": "simuser",
+        "HOSTNAME": "simhost",
+        "TERM": "dumb",
         "TMPDIR": os.environ.get("TMPDIR", "/tmp"),
         "VERIF_REPO": REPO,
     }
